@@ -230,6 +230,32 @@ def run(facts, tr, rep):
                     b1 = peel(v[3])
                     if b1[0] == "const" and b1[3] == "1":
                         counters.setdefault(s["lhs"]["l"], []).append((i, j))
+    # ... the counter may be a field of a bookkeeping struct (`ledger.hedges += 1`), incremented in place or by a
+    # method of that struct called here (`ledger.start_hedge()`)
+    def _field_incs(body, base_ok):
+        out = []
+        for i, blk in enumerate(body.blocks):
+            for j, s in enumerate(blk["stmts"]):
+                if s["k"] != "assign" or not s["lhs"]["p"] or not base_ok(s["lhs"]["l"]):
+                    continue
+                names = tuple(e.get("n") for e in s["lhs"]["p"] if isinstance(e, dict) and "f" in e)
+                if not names or not isinstance(s["lhs"]["p"][-1], dict) or "f" not in s["lhs"]["p"][-1]:
+                    continue
+                v = peel(tr.stmt_value(body, i, j))
+                if v[0] == "field" and peel(v[1])[0] == "binop":
+                    v = peel(v[1])
+                if v[0] == "binop" and v[1] in ("Add", "AddWithOverflow") and peel(v[3])[0] == "const" and peel(v[3])[3] == "1":
+                    out.append((names, i, j))
+        return out
+    for (names, i, j) in _field_incs(hb, lambda l: bool(hb.locals[l].get("user"))):
+        counters.setdefault(("field",) + names, []).append((i, j))
+    for c in g.calls():
+        hlp = tr.local_sync_callee(("call", hb.crate.name, hb.def_, c.bb))
+        if hlp is None or hlp.crate.name != CRATE or hlp.arg_count < 1 or hlp.local_ty(1).get("k") != "ref" or not hlp.local_ty(1).get("mut"):
+            continue
+        for (names, _i, _j) in _field_incs(hlp, lambda l: l == 1):
+            counters.setdefault(("field",) + names, []).append((c.bb, len(g.stmts(c.bb))))
+            rep.saw(hlp)
     lat_spawns = [sp for sp in spawns if not any(sp.bb in g.reach([c.target], kinds=(N,)) and c.name == "next" for c in g.calls() if c.name == "next" and c.exp == "desugar:ForLoop" and c.target is not None) and sp is not spawns[0]]
     for n, sp in enumerate(lat_spawns):
         pre = [(l, i) for l, sites in counters.items() for (i, j) in sites if g.node_dominates(i, sp.bb)]
